@@ -219,6 +219,8 @@ func (b *Buffer) finalize() {
 // endRedactable adds the closing redaction marker.
 func (b *Buffer) endRedactable() {
 	if len(b.buf) == 0 {
+		// Nothing to close; but the envelope does not stay open.
+		b.markerOpen = false
 		return
 	}
 	if bytes.HasSuffix(b.buf, m.StartBytes) {
